@@ -784,6 +784,17 @@ def str_join(run, self, it):
         if h is None:
             raise Unsupported("join over abstract text without a text model")
         return h(run, self, items)
+    if run.ghost.get("str_method") is None and isinstance(self, VStr) and items and all(isinstance(x, VStr) for x in items) \
+            and not (is_concrete(self) and all(is_concrete(x) for x in items)):
+        # exact: sep.join of a list of known length whose items are all str instances is the interleaved concatenation
+        def term(v):
+            return z3.StringVal(v.t) if isinstance(v.t, str) else v.t
+        parts = []
+        for i, x in enumerate(items):
+            if i:
+                parts.append(term(self))
+            parts.append(term(x))
+        return VStr(str, parts[0] if len(parts) == 1 else z3.Concat(*parts))
     return _str_fold("join")(run, self, VList(list, items))
 
 
